@@ -92,12 +92,21 @@ def h_fresh(run, cfg):
     ops = cfg['ops']
     hist = {}        # rows captured when the clock moved: (node path, series, date) -> term
 
+    RAW = {'prices': '_prices', 'values': '_values', 'notional_values': '_notl_values', 'cash': '_cash', 'fees': '_fees', 'flows': '_all_flows',
+           'positions': '_positions', 'outlays': '_outlays', 'bidoffers_paid': '_bidoffers_paid', 'coupons': '_coupon_income', 'holding_costs': '_holding_costs'}
+
     def capture():
+        # rows recorded so far, read from the backing series (an accessor would refresh a lagging security and disturb the state under test)
+        now = root.now
         for n in root.members:
             sc, se = accessors(w, n)
             for name in se:
-                for (i, v) in read(n, name):
-                    hist.setdefault((path_of(n), name, i), v)
+                raw = getattr(n, RAW.get(name, ''), None) if name in RAW else None
+                if raw is None or not hasattr(raw, 'index'):
+                    continue
+                for k2, i in enumerate(raw.index):
+                    if now != 0 and i < now:
+                        hist.setdefault((path_of(n), name, '%s' % i), raw.iloc[k2])
 
     def after(k, op, info):
         if op[0] == 'next':
@@ -186,7 +195,65 @@ def h_fresh(run, cfg):
         run.check_near(cur, v, EPS_MONEY, 'append-only:' + name, '%s.%s @%s' % (pth, name, i))
 
 
-HARNESSES = {'fresh': h_fresh}
+class Memo:
+    """hands the same symbolic input to both worlds of a relational run (inputs are looked up by name)"""
+    def __init__(self, run):
+        self._run = run
+        self._c = {}
+        self.mode = run.mode
+
+    def _get(self, kind, name, *a):
+        key = (kind, name)
+        if key not in self._c:
+            self._c[key] = getattr(self._run, kind)(name, *a)
+        return self._c[key]
+
+    def real(self, name, lo, hi):
+        return self._get('real', name, lo, hi)
+
+    def integer(self, name, lo, hi):
+        return self._get('integer', name, lo, hi)
+
+    def uf(self, name, arity=2):
+        return self._get('uf', name, arity)
+
+    def __getattr__(self, k):
+        return getattr(self._run, k)
+
+
+def h_redundant(run, cfg):
+    """the same operation history with and without redundant update(now) calls sprinkled in ends in the same observable state"""
+    memo = Memo(run)
+    worlds = []
+    for extra in (0, int(cfg.get('extra', 2))):
+        w = O.build(memo, cfg)
+        O.fund(memo, w, prior=True)
+        root = w.root
+        for k, op in enumerate(cfg['ops']):
+            try:
+                O.apply_op(memo, w, k, op)
+                root.value
+                for _ in range(extra):
+                    root.update(root.now)
+            except Exception as e:
+                run.end('raised')
+        try:
+            root.update(root.now)
+        except Exception:
+            run.end('raised')
+        if root.bankrupt:
+            run.end('bankrupt')
+        worlds.append(w)
+    wa, wb = worlds
+    for n in wa.root.members:
+        pth = path_of(n)
+        m = O.node_of(wb.root, pth)
+        sc, se = accessors(wa, n)
+        for name in sc + se:
+            same(run, read(m, name), read(n, name), 'redundant-updates-change-nothing:' + name, '%s.%s' % (n.full_name, name))
+
+
+HARNESSES = {'fresh': h_fresh, 'redundant': h_redundant}
 WITNESS_CAP = {'quick': 100, 'thorough': 250}
 
 
@@ -224,6 +291,18 @@ def plan(tier):
         for cfg in _cfgs('S3', seq, 0, tier)[:1]:
             cfg.update(fresh_nodes=['', 'sub', 'sub/a', 'sub/b'])
             tasks.append(dict(harness='fresh', cfg=cfg, opts=opts))
+    # relational: with vs without redundant updates between the operations
+    rseqs = [(['close', 'b'], ['transact', 'a']), (['transact', 'b'], ['close', 'b']), (['transact', 'a'], ['next'], ['transact', 'b']), (['adjust'], ['flatten']),
+             (['next'], ['close', 'a'], ['transact', 'b']), (['alloc', 'a'], ['close', 'a'])]
+    for seq in rseqs:
+        for integer in ((0,) if quick else (0, 1)):
+            for cfg in _cfgs('S1', seq, integer, 'thorough')[:1]:
+                cfg.update(extra=2)
+                tasks.append(dict(harness='redundant', cfg=cfg, opts=opts))
+    for seq in ((['close', 'sub'], ['transact', 'c']), (['transact', 'b', 'sub'], ['flatten', 'sub'])):
+        for cfg in _cfgs('S3', seq, 0, 'thorough')[:1]:
+            cfg.update(extra=1)
+            tasks.append(dict(harness='redundant', cfg=cfg, opts=opts))
     # fixed-income tree with a zero-price episode, no commission, no bid/offer: zero-cost trades must still refresh notionals and weights
     fseqs = [(['next'], ['transact', 'a']), (['next'], ['transact', 'b']), (['transact', 'a'], ['transact', 'c']), (['next'], ['adjust'])]
     for seq in (fseqs[:1] if quick else fseqs):
